@@ -195,7 +195,12 @@ func (c *conn) OnClosed(fn func()) (unsub func(), _ bool) {
 	// Add listener
 	id := c.addClosed(fn1)
 	if id == 0 {
-		return nil, false
+		// A concurrent close may have invoked the listener before it was removed:
+		// the once-flag tells, and also makes sure a late invocation does nothing.
+		if called.CompareAndSwap(false, true) {
+			return nil, false
+		}
+		return func() {}, true
 	}
 
 	// Return unsubscribe
